@@ -227,6 +227,7 @@ def work(item):
             for sig, msg in check(lay, h, life, plan):
                 res.violation(sig, f"layout {lay['name']} faults {plan}: {msg}", rp)
             res.outcome(core.stable_hash([h, sorted(plan.items()), [sorted((k, repr(v)) for k, v in s["obs"].items()) for s in life.steps if "obs" in s][-1:]]))
+            R.visit_history(res, lay, h, extra=(sorted((k, str(v)) for k, v in plan.items()),))
             if not res.samples and len(h) >= 3 and not plan:
                 res.sample(dict(layout=lay["name"], history=h, entries_after_last_iteration={k: list(v) for k, v in life.steps[-2]["obs"].items()}))
     return res
@@ -255,7 +256,6 @@ def main(tier, seed):
     res = core.Result()
     for d in core.parallel("mc.props.c11", "work", items, seed=seed):
         res.merge(d)
-    res.states = len(FEEDBACKS) * 3 * 4
     res.bounds.update(long_histories=long_hs, multi_call_fault_plans=[{k: list(v) for k, v in m.items()} for m in multi], history_depth=depth, layouts=2, feedback_methods_per_owner=len(FEEDBACKS), owners=["component c0", "component c1", "robot"], fault_plans=len(plans))
     rule = (
         "two layouts x every driver-station history up to the stated depth (all four modes) x fault plans for selected getters (FMS attached): "
